@@ -8,8 +8,8 @@ package components
 // (*OutParamPort).Send maintain (proved in package scipipe: every Send appends the item to the log of its port and
 // delivers it to every connected in-port exactly once).
 
-//@ define wfSrcParamOut(b *scipipe.BaseProcess, name string) bool = b.outParamPorts != nil && name in b.outParamPorts && b.outParamPorts[name] != nil && scipipe.wfOutParamPort(b.outParamPorts[name])
-//@ define wfSrcOut(b *scipipe.BaseProcess, name string) bool = b.outPorts != nil && name in b.outPorts && b.outPorts[name] != nil && scipipe.wfOutPort(b.outPorts[name])
+//@ define wfSrcParamOut(b *scipipe.BaseProcess, name string) bool = b.outParamPorts != nil && name in b.outParamPorts && b.outParamPorts[name] != nil && wfOutParamPort(b.outParamPorts[name])
+//@ define wfSrcOut(b *scipipe.BaseProcess, name string) bool = b.outPorts != nil && name in b.outPorts && b.outPorts[name] != nil && wfOutPort(b.outPorts[name])
 
 //@ func (*ParamSource).Out(p) (res)
 //@   props C19
